@@ -105,13 +105,11 @@ theorem C02_jump_own {α : Type} (owner : List String → String) (jump : α →
   unfold startStep
   exact List.mem_map.mpr ⟨e, he, by simp [hm]⟩
 
-/-- the code's `start_step` jumps the module's own registry, and ownership is decided by identity of the owning
-    module (regenerated expressions) -/
+/-- the code's `start_step` jumps the module's OWN registry, ownership is decided by identity of the owning module,
+    and distributions are named by their search path (facts extracted semantically from the source on every run) -/
 theorem C02_start_step_jumps_own :
-    Gen.Seed.startStepJumps = ["self.dists.jump_dt()"] ∧
-    Gen.Seed.ownershipExpr = "{key: dist for key, dist in self.dists.items() if id(dist.module) == id(module)}" ∧
-    Gen.Seed.searchExpr = "sc.search(obj, type=Dist, skip=skip, flatten=True)" ∧
-    Gen.Seed.distLoop = ["self.dists.items() -> (trace, dist)"] := by decide
+    Gen.Seed.startStepOwn = true ∧ Gen.Seed.ownershipByIdentity = true ∧ Gen.Seed.searchByPath = true ∧
+    Gen.Seed.initPassesTraceAndSeed = true := by decide
 
 /-- Components cannot share a distribution (or any other mutable object) by accident: no class-level mutable
     attribute and no mutable default argument exists in the simulation code (regenerated table).  A shared default
